@@ -195,7 +195,9 @@ def check_stationary(case, ctx):
 
 @st.composite
 def density_cases(draw, tier):
-    time = draw(st.sampled_from(list(range(0, 21))))
+    # mostly short horizons; sometimes long enough for the density to be numerically stationary
+    # (every later density is still the previous one times K, to 1e-9)
+    time = draw(st.sampled_from(list(range(0, 21)) + [20, 28, 40]))
     mode = draw(st.sampled_from(["vertex", "positive", "mixed"]))
     hc = draw(connected_hypergraphs(tier))
     n = hc["n"]
